@@ -195,8 +195,8 @@ theorem restoring_seq (a b : XP) (ha : Restoring a) (hb : Restoring b) : Restori
   intro f
   simp only [xrun]
   split
-  · exact ha f
   · rw [hb, ha]
+  · exact ha f
 
 theorem restoring_catch (a : XP) (ha : Restoring a) : Restoring (.catch a) := by
   intro f; simp only [xrun]; exact ha f
@@ -205,6 +205,7 @@ theorem restoring_catch (a : XP) (ha : Restoring a) : Restoring (.catch a) := by
 def XP.flagFree : XP → Bool
   | .skip => true
   | .raise => true
+  | .raiseBase => true
   | .set _ => false
   | .seq a b => a.flagFree && b.flagFree
   | .tmp _ _ => true
@@ -216,6 +217,7 @@ theorem flagFree_restoring : ∀ (p : XP), p.flagFree = true → Restoring p := 
   induction p with
   | skip => intro _ f; rfl
   | raise => intro _ f; rfl
+  | raiseBase => intro _ f; rfl
   | set b => intro h; simp [XP.flagFree] at h
   | seq a b iha ihb =>
     intro h
@@ -271,7 +273,69 @@ theorem force_alone_not_restoring : ¬ (∀ en body, Restoring (.force en body))
 
 -- non-vacuity: nested blocks with a raise after a flag flip
 example : xrun (.tmp true (.seq (.force true (.seq (.set false) .raise)) .skip)) false
-    = (false, true) := by decide
-example : xrun (.tmp true (.seq (.set false) (.tmp false .raise))) true = (true, true) := by decide
+    = (false, .exc) := by decide
+example : xrun (.tmp true (.seq (.set false) (.tmp false .raise))) true = (true, .exc) := by decide
+
+/-! ### every exit of the block, including `BaseException`s (round 2) -/
+
+/-- **Every exit.** Whatever way the block is left — normally, by an `Exception`, or by a
+    `BaseException` outside `Exception` (KeyboardInterrupt / SystemExit / GeneratorExit) raised at any
+    point of any body — the flag is as found, and the block does not swallow the exit. -/
+theorem x64_restored_every_exit (en : Bool) (body : XP) (f : Bool) :
+    (xrun (.tmp en body) f).1 = f ∧
+      (xrun (.tmp en body) f).2 = (xrun body (if en != f then en else f)).2 := by
+  refine ⟨tmp_restores en body f, ?_⟩
+  simp only [xrun]
+
+/-- `except Exception` around `fn(*args)` (as `_run_allclose` has it) does not stop a `BaseException`:
+    it leaves the block — and the flag is still restored. -/
+theorem x64_restored_allclose_base_in_fn (en : Bool) (pre post : XP) (f : Bool)
+    (hpre : (xrun pre (if en != f then en else f)).2 = .normal) :
+    xrun (.tmp en (.seq pre (.seq (.catch .raiseBase) post))) f = (f, .base) := by
+  have h1 := (x64_restored_every_exit en (.seq pre (.seq (.catch .raiseBase) post)) f)
+  have h2 : (xrun (.seq pre (.seq (.catch .raiseBase) post)) (if en != f then en else f)).2 = .base := by
+    simp only [xrun, hpre, ↓reduceIte]
+    simp
+  exact Prod.ext h1.1 (h1.2.trans h2)
+
+/-- **An interrupt at every point.** For every body, every position `n`, every interrupt program `inj`
+    (e.g. `raiseBase`), injecting `inj` before the `n`-th atomic step of the body keeps the flag restored. -/
+theorem x64_restored_under_injection (en : Bool) (body inj : XP) (n : Nat) (f : Bool) :
+    (xrun (.tmp en (injectAt inj body (some n)).1) f).1 = f := tmp_restores en _ f
+
+/-- … and the same for the `to_onnx` nesting and for whole histories of interrupted calls -/
+theorem x64_restored_to_onnx_under_injection (en : Bool) (pre body post inj : XP) (n : Nat) (f : Bool) :
+    (xrun (injectAt inj (.tmp en (.seq pre (.seq (.force en body) post))) (some n)).1 f).1 = f := by
+  simp only [injectAt]
+  exact tmp_restores en _ f
+
+/-- REFUTED VARIANT: a `_temporary_x64` that restores on the normal path and under `except Exception`
+    only is NOT restoring — a `BaseException` while the flag is toggled leaks it. -/
+theorem tmpExcOnly_not_restoring : ¬ (∀ en body f, (tmpExcOnly en body f).1 = f) := by
+  intro h
+  have := h true .raiseBase false
+  simp [tmpExcOnly, xrun] at this
+
+/-- … and it leaks exactly then: the flag is restored iff the body is not left by a `BaseException`
+    with the flag different from the one found. -/
+theorem tmpExcOnly_restores_iff (en : Bool) (body : XP) (f : Bool) :
+    (tmpExcOnly en body f).1 = f ↔
+      ((xrun body (if en != f then en else f)).2 ≠ .base ∨
+        (xrun body (if en != f then en else f)).1 = f) := by
+  unfold tmpExcOnly
+  simp only
+  generalize xrun body (if (en != f) = true then en else f) = r
+  obtain ⟨r1, r2⟩ := r
+  cases r2 <;> cases r1 <;> cases f <;> simp
+
+-- non-vacuity: an interrupt inside fn (under the `except Exception`), after the flag was toggled;
+-- the injection really lands inside the body; the refuted variant leaks on it
+example : xrun (.tmp true (.seq .skip (.seq (.catch .raiseBase) .skip))) false = (false, .base) := by decide
+example : (injectAt .raiseBase (.seq .skip (.seq (.catch (.set false)) .skip)) (some 1)).1
+    = .seq .skip (.seq (.catch (.seq .raiseBase (.set false))) .skip) := by simp [injectAt]
+example : xrun (.tmp true (injectAt .raiseBase (.seq .skip (.seq (.catch (.set false)) .skip)) (some 1)).1) false
+    = (false, .base) := by decide
+example : tmpExcOnly true (.catch .raiseBase) false = (true, .base) := by decide
+example : tmpExcOnly true (.catch .raise) false = (false, .normal) := by decide
 
 end J2O.C18
